@@ -413,6 +413,10 @@ func TestVerifC07(t *testing.T) {
 				if mode != "honest" && !(mode == "nohashes" && tsv == 1) {
 					out.Fail(key, "malformed backend reply answered 200")
 				}
+			} else if mode == "honest" && tree >= uint64(tsv) && rproof != nil && (tsv == 1 || len(rproof.Hashes) > 0) {
+				// get-entries serves the stored bytes of an index as they are, whatever they decode to; the same index with a
+				// well-formed backend reply must not be refused here
+				out.Fail(key, fmt.Sprintf("a well-formed backend reply for a stored entry is answered %d: get-entries serves the same index as stored", status))
 			}
 		}
 	}
